@@ -508,12 +508,16 @@ def run(chk, mode_filter=None, alg_filter=None, only_cells=False, ids=('T2', 'T2
             if co not in cs:
                 ok, why = False, 'chain order test changed: %s' % sorted(cs)
             else:
-                bid = [b for c, b in conds if c == co][0]
-                tb, fb = g.blocks[bid]['succ']
-                tc = [ev['e'].get('fn') for ev in g.blocks[tb]['ev'] if ev['k'] == 'call']
-                fc = [ev['e'].get('fn') for ev in g.blocks[fb]['ev'] if ev['k'] == 'call']
-                if tc != [sc] or fc != [sh_r]:
-                    ok, why = False, 'CIPHER_HASH order starts with %s, otherwise %s' % (tc, fc)
+                # which stage is submitted first is decided by constant propagation of the chain order (whatever the statement shape:
+                # assign-then-resubmit, or `return RESUBMIT(state, SUBMIT_x(state, job))`)
+                from . import c05
+                ch = P.enum('IMB_ORDER_CIPHER_HASH')
+                hc = P.enum('IMB_ORDER_HASH_CIPHER')
+                tc = c05.stage_calls(P, tu, fn, ch) - {'RESUBMIT'}
+                fc = c05.stage_calls(P, tu, fn, hc) - {'RESUBMIT'}
+                # the GCM bypass submits the cipher stage alone whatever the order
+                if tc != {'CIPHER_SUBMIT'} or fc - {'CIPHER_SUBMIT'} != {'HASH_SUBMIT'}:
+                    ok, why = False, 'CIPHER_HASH order starts with %s, HASH_CIPHER with %s' % (sorted(tc), sorted(fc))
             # every non-bypass path ends with RESUBMIT
             if not any(ev['e'].get('fn') == rs for _, _, ev in g.calls()):
                 ok, why = False, 'no %s after the first stage' % rs
